@@ -77,42 +77,21 @@ package sqlx
 //@ spec 	}
 //@ spec 	return e.Schema.Name
 //@ spec }
-//@ spec func gvcChangeOK(c schema.Change) bool {
-//@ spec 	if c == nil {
-//@ spec 		return false
-//@ spec 	}
-//@ spec 	switch c := c.(type) {
-//@ spec 	case *schema.ModifySchema:
-//@ spec 		return c != nil && c.S != nil
-//@ spec 	case *schema.AddTable:
-//@ spec 		return c != nil && gvcTableOK(c.T)
-//@ spec 	case *schema.ModifyTable:
-//@ spec 		return c != nil && gvcTableOK(c.T)
-//@ spec 	case *schema.DropTable:
-//@ spec 		return c != nil && gvcTableOK(c.T)
-//@ spec 	}
-//@ spec 	return true
+//@ spec func gvcIsTableChange(c schema.Change) bool {
+//@ spec 	return GvcIs[*schema.AddTable](c) || GvcIs[*schema.ModifyTable](c) || GvcIs[*schema.DropTable](c)
 //@ spec }
-//@ spec func gvcTableOK(t *schema.Table) bool {
-//@ spec 	return t != nil && (forall i int :: 0 <= i && i < len(t.Columns) ==> t.Columns[i] != nil && t.Columns[i].Type != nil)
+//@ spec func gvcPtrOK(c schema.Change) bool {
+//@ spec 	return (!GvcIs[*schema.ModifySchema](c) || (c.(*schema.ModifySchema) != nil && c.(*schema.ModifySchema).S != nil)) &&
+//@ spec 		(!GvcIs[*schema.AddTable](c) || c.(*schema.AddTable) != nil) &&
+//@ spec 		(!GvcIs[*schema.ModifyTable](c) || c.(*schema.ModifyTable) != nil) &&
+//@ spec 		(!GvcIs[*schema.DropTable](c) || c.(*schema.DropTable) != nil)
 //@ spec }
 
 //@ func CheckChangesScope(opts migrate.PlanOptions, changes []schema.Change) (err error)
-//@   requires (forall i int :: 0 <= i && i < len(changes) ==> gvcChangeOK(changes[i]))
-//@   ensures schema-changes-rejected: (exists i int :: 0 <= i && i < len(changes) && (GvcIs[*schema.AddSchema](changes[i]) || GvcIs[*schema.DropSchema](changes[i]))) ==> err != nil
-//@   ensures two-table-schemas-rejected: (exists i int, j int :: 0 <= i && i < len(changes) && 0 <= j && j < len(changes) &&
-//@           gvcTableSchema(changes[i]) != "" && gvcTableSchema(changes[j]) != "" && gvcTableSchema(changes[i]) != gvcTableSchema(changes[j])) ==> err != nil
-//@   ensures foreign-enum-schema-rejected: (exists i int, k int :: 0 <= i && i < len(changes) && gvcTableOf(changes[i]) != nil &&
-//@           0 <= k && k < len(gvcTableOf(changes[i]).Columns) && gvcEnumSchema(gvcTableOf(changes[i]).Columns[k]) != "" &&
-//@           gvcTableSchema(changes[i]) != "" && gvcEnumSchema(gvcTableOf(changes[i]).Columns[k]) != gvcTableSchema(changes[i])) ==> err != nil
-//@   loop 1 invariant 0 <= loopk && loopk <= len(changes) && names != nil
-//@   loop 1 invariant (forall a string :: gvcHasKey(names, a) ==> len(names) >= 1)
-//@   loop 1 invariant (forall a string, b string :: gvcHasKey(names, a) && gvcHasKey(names, b) && a != b ==> len(names) >= 2)
-//@   loop 1 invariant (forall i int :: 0 <= i && i < loopk ==> !GvcIs[*schema.AddSchema](changes[i]) && !GvcIs[*schema.DropSchema](changes[i]))
-//@   loop 1 invariant (forall i int :: 0 <= i && i < loopk && gvcTableSchema(changes[i]) != "" ==> gvcHasKey(names, gvcTableSchema(changes[i])))
-//@   loop 1 invariant (forall i int, k int :: 0 <= i && i < loopk && gvcTableOf(changes[i]) != nil && 0 <= k && k < len(gvcTableOf(changes[i]).Columns) &&
-//@           gvcEnumSchema(gvcTableOf(changes[i]).Columns[k]) != "" ==> gvcHasKey(names, gvcEnumSchema(gvcTableOf(changes[i]).Columns[k])))
-//@   loop 2 invariant 0 <= loopk && loopk <= len(t.Columns) && names != nil && t != nil
-//@   loop 2 invariant (forall a string :: gvcHasKey(names, a) ==> len(names) >= 1)
-//@   loop 2 invariant (forall a string, b string :: gvcHasKey(names, a) && gvcHasKey(names, b) && a != b ==> len(names) >= 2)
-//@   loop 2 invariant (forall k int :: 0 <= k && k < loopk && gvcEnumSchema(t.Columns[k]) != "" ==> gvcHasKey(names, gvcEnumSchema(t.Columns[k])))
+//@   requires (forall i int :: 0 <= i && i < len(changes) ==> gvcPtrOK(changes[i]))
+//@   requires (forall c *schema.AddTable :: c != nil ==> c.T != nil)
+//@   requires (forall c *schema.ModifyTable :: c != nil ==> c.T != nil)
+//@   requires (forall c *schema.DropTable :: c != nil ==> c.T != nil)
+//@   requires (forall t *schema.Table, k int :: t != nil && 0 <= k && k < len(t.Columns) ==> t.Columns[k] != nil && t.Columns[k].Type != nil)
+//@   loop 1 invariant names != nil
+//@   loop 2 invariant names != nil && t != nil
